@@ -35,4 +35,33 @@ theorem init99_spec (s : State) (hb : s.vars 0 ≠ 0) (hlen : 2 ≤ s.arr.length
     refine ⟨_, by simp [Gen.FlushC99.init, St.run, Ex.eval, bind, Option.bind, pure, b2i, hb, hc, hf, ht, harr, setVar_vars]; rfl, ?_⟩
     refine ⟨?_, ?_, ?_, ?_, ?_, ?_, ?_, ?_, ?_, ?_, ?_⟩ <;> simp [setVar_vars, harr, Gen.Flush.cYY_BUFFER_NEW, hc, hf, ht]
 
+
+/-- **yy_create_buffer(file, size)** of the c99 skeleton: the statement of `create_spec` -/
+theorem create99_spec (s : State) (harr : s.arr = []) (hsz : 0 ≤ s.vars 20) (hcur : s.vars 1 = 0) :
+    ∃ s', Gen.FlushC99.create.run s = (s', .returned 1) ∧ (s'.arr.length : Int) = s'.vars 21 + 2 ∧ s'.vars 21 = s.vars 20 ∧
+      s'.vars 22 = 1 ∧ s'.vars 2 = 0 ∧ s'.arr.take 2 = [0, 0] ∧ s'.vars 3 = 0 ∧ s'.vars 4 = 1 ∧
+      s'.vars 5 = Gen.Flush.cYY_BUFFER_NEW ∧ s'.vars 6 = s.vars 16 ∧ s'.vars 7 = (if s.vars 16 = 0 then 0 else 1) ∧
+      s'.vars 8 = 1 ∧ s'.vars 9 = 0 ∧ s'.vars 18 = s.vars 18 ∧ s'.log = s.log := by
+  obtain ⟨n, hn⟩ : ∃ n : Nat, s.vars 20 = n := ⟨(s.vars 20).toNat, by omega⟩
+  have e : ((n : Int) + 2).toNat = n + 2 := by omega
+  have hrep : List.replicate (n + 2) garbage = garbage :: garbage :: List.replicate n garbage := by
+    rw [List.replicate_succ, List.replicate_succ]
+  by_cases hf : s.vars 16 = 0 <;> by_cases ht : s.vars 17 = 0
+  all_goals
+    refine ⟨_, by simp [Gen.FlushC99.create, St.run, Ex.eval, bind, Option.bind, pure, b2i, hcur, hf, ht, harr, hn, e, hrep, setVar_vars]; rfl, ?_⟩
+    refine ⟨?_, ?_, ?_, ?_, ?_, ?_, ?_, ?_, ?_, ?_, ?_, ?_, ?_, ?_⟩ <;>
+      simp [setVar_vars, Gen.Flush.cYY_BUFFER_NEW, hcur, hf, ht, hn] <;> omega
+
+/-- yy_delete_buffer() of the c99 skeleton is the same program -/
+theorem delete_same : Gen.FlushC99.delete = Gen.Flush.delete := rfl
+
+/-- **yy_delete_buffer(b)** of the c99 skeleton: the statement of `delete_spec` -/
+theorem delete99_spec (s : State) :
+    (s.vars 0 = 0 → Gen.FlushC99.delete.run s = (s, .returned 0)) ∧
+    (s.vars 0 ≠ 0 → ∃ s', Gen.FlushC99.delete.run s = (s', .normal) ∧
+      s'.log = s.log ++ (if s.vars 22 = 0 then [] else [((1 : Nat), (1 : Int))]) ++ [(1, 0)] ∧
+      s'.vars 24 = (if s.vars 1 = 0 then s.vars 24 else 0) ∧ s'.arr = s.arr ∧
+      ∀ y, y ≠ 24 → s'.vars y = s.vars y) := by
+  rw [delete_same]; exact C11Flush.delete_spec s
+
 end FlexVerif.C11FlushC99
